@@ -895,6 +895,7 @@ struct GenCfg {
     faults: bool,
     clean_tail: bool,
     steps: usize,
+    inject: bool,
 }
 
 fn gen_reply_spec(rng: &mut Rng) -> String {
@@ -1076,7 +1077,10 @@ fn gen_case(rng: &mut Rng, g: &GenCfg) -> String {
         if rng.chance(1, 10) {
             user(rng, &mut ops);
         }
-        let r = rng.below(1000);
+        let mut r = rng.below(1000);
+        if g.inject && rng.chance(1, 3) {
+            r = 900 + rng.below(95);
+        }
         if !g.faults || r < 800 {
             ops.push("D".into());
         } else if r < 850 {
@@ -1137,17 +1141,17 @@ pub fn gen(seed: u64, thorough: bool, out: &mut dyn FnMut(String)) {
     }
     // clean bring-up and data exchange, no faults
     for i in 0..300 * scale {
-        let g = GenCfg { nper: 1 + (i % 4), big: i % 7 == 0, faults: false, clean_tail: false, steps: 20 + rng.below(60) as usize };
+        let g = GenCfg { nper: 1 + (i % 4), big: i % 7 == 0, faults: false, clean_tail: false, steps: 20 + rng.below(60) as usize, inject: false };
         out(gen_case(&mut rng, &g));
     }
     // fault histories
     for i in 0..1500 * scale {
-        let g = GenCfg { nper: i % 5, big: i % 9 == 0, faults: true, clean_tail: false, steps: 20 + rng.below(140) as usize };
+        let g = GenCfg { nper: i % 5, big: i % 9 == 0, faults: true, clean_tail: false, steps: 20 + rng.below(140) as usize, inject: i % 4 == 0 };
         out(gen_case(&mut rng, &g));
     }
     // fault histories followed by a fault-free tail (recovery, C07)
     for i in 0..700 * scale {
-        let g = GenCfg { nper: 1 + (i % 4), big: false, faults: true, clean_tail: true, steps: 10 + rng.below(80) as usize };
+        let g = GenCfg { nper: 1 + (i % 4), big: false, faults: true, clean_tail: true, steps: 10 + rng.below(80) as usize, inject: i % 2 == 0 };
         out(gen_case(&mut rng, &g));
     }
 }
